@@ -98,6 +98,10 @@ class Sys:
         if w.created < self.spec["maxnew"]:
             for k in [None] + list(range(len(w.L))):
                 out.append(("new_universe", k))
+            # a construction that is rejected half-way: Universe(vertices=[a vertex, junk], laws=L).  The
+            # half-built universe stays reachable through the vertex and takes part in the invariant.
+            for k in range(len(w.L)):
+                out.append(("new_universe_rejected", k))
         return out
 
     def apply(self, w, op):
@@ -106,6 +110,20 @@ class Sys:
                 w.U[op[1]].laws = None if op[2] is None else w.L[op[2]]
             elif op[0] == "set_applies_to":
                 w.L[op[1]].applies_to = None if op[2] is None else w.U[op[2]]
+            elif op[0] == "new_universe_rejected":
+                good = Vertex()
+                try:
+                    Universe(vertices=[good, "not a vertex"], laws=w.L[op[1]])
+                    res = ("ret", "accepted")
+                except Exception as e:  # noqa: BLE001
+                    res = ("exc-expected", type(e).__name__)
+                w.created += 1
+                for u in good.universes:                 # what the failed call left behind
+                    if w.uid(u) == "?":
+                        w.U.append(u)
+                        if u.laws is not None and w.lid(u.laws) == "?":
+                            w.L.append(u.laws)
+                return res
             else:
                 u = Universe(laws=None if op[1] is None else w.L[op[1]])
                 w.U.append(u)
@@ -172,9 +190,10 @@ def op_shape(pre_o, op):
         if new == cur:
             return s + "|new=current"
         return s + f"|new={'universe-with-laws' if ul[new] is not None else 'universe-without-laws'}"
+    name = "new_universe_rejected_half_way" if op[0] == "new_universe_rejected" else "new_universe"
     if op[1] is None:
-        return "new_universe|laws=None"
-    return f"new_universe|laws={'in-use-elsewhere' if la[op[1]] is not None else 'free'}"
+        return f"{name}|laws=None"
+    return f"{name}|laws={'in-use-elsewhere' if la[op[1]] is not None else 'free'}"
 
 
 def replay(rec, verbose=False):
